@@ -416,7 +416,18 @@ func (g *wireGen) next() wireCall {
 			return n.Inst.AcctH.Unlock(ctx, r.(*pb.UnlockAccountRequest))
 		}}
 	case 12:
-		return wireCall{"AccountManager.Generate", rt(&pb.GenerateRequest{Account: g.accountName(), Passphrase: g.bytesField(), Participants: uint32(g.u64()), SigningThreshold: uint32(g.u64())}, &pb.GenerateRequest{}),
+		// Half of the requests ask for an account that does not exist yet in a wallet that does (of either kind), with small
+		// participant and threshold numbers: every combination of wallet kind, one / several participants and threshold.
+		gr := &pb.GenerateRequest{Account: g.accountName(), Passphrase: g.bytesField(), Participants: uint32(g.u64()), SigningThreshold: uint32(g.u64())}
+		if ch.Pick(2, 0) == 1 {
+			gr.Account = fmt.Sprintf("%s/Fresh %d", []string{"Wallet 1", "Wallet 2", "Wallet 3", "Wallet 3"}[ch.Pick(4, 0)], ch.U64()>>40)
+			gr.Participants, gr.SigningThreshold = uint32(ch.Pick(5, 0)), uint32(ch.Pick(5, 0))
+			if ch.Pick(3, 0) == 0 {
+				gr.Passphrase = []byte("pass")
+			}
+			g.rc.Stats.Inc("probe_generate_requests_for_a_new_name", 1)
+		}
+		return wireCall{"AccountManager.Generate", rt(gr, &pb.GenerateRequest{}),
 			func(ctx context.Context, n *Node, r proto.Message) (proto.Message, error) {
 				return n.Inst.AcctH.Generate(ctx, r.(*pb.GenerateRequest))
 			}}
